@@ -154,9 +154,9 @@ func (c cell) effMax() int {
 	return c.MaxRead
 }
 
-func (c cell) config(network, addr string) nbio.Config {
+func (c cell) config(network, addr string, src *bufSource, lockPoller bool) nbio.Config {
 	conf := nbio.Config{Network: network, NPoller: c.NPoller, ReadBufferSize: c.RBS,
-		MaxConnReadTimesPerEventLoop: c.MaxRead, AsyncReadInPoller: c.Async}
+		MaxConnReadTimesPerEventLoop: c.MaxRead, AsyncReadInPoller: c.Async, LockPoller: lockPoller}
 	if addr != "" {
 		conf.Addrs = []string{addr}
 	}
@@ -168,12 +168,16 @@ func (c cell) config(network, addr string) nbio.Config {
 		conf.EPOLLONESHOT = nbio.EPOLLONESHOT
 	}
 	if c.Custom {
-		n := c.effRBS()
-		conf.IOExecute = func(f func(*[]byte)) {
-			go func() {
-				b := make([]byte, n)
-				f(&b)
-			}()
+		// with synchronous reading the executor is never called; the cell then gets read-buffer hooks instead (exec.go)
+		conf.IOExecute = src.ioExecute()
+		if conf.IOExecute == nil {
+			n := c.effRBS()
+			conf.IOExecute = func(f func(*[]byte)) {
+				go func() {
+					b := make([]byte, n)
+					f(&b)
+				}()
+			}
 		}
 	}
 	return conf
@@ -336,6 +340,7 @@ type connState struct {
 	closed     int32
 	closeErr   string
 	afterClose int32
+	hold       holder
 	blocker    func() // set for the connections that only keep the poller busy
 	echo       int32  // write every chunk back this many times
 }
@@ -407,6 +412,8 @@ func genBursts(c cell, r *rand.Rand) ([]int, []int) {
 }
 
 type streamEnv struct {
+	src    *bufSource
+	nstate int32
 	mu     sync.Mutex
 	opened []*nbio.Conn
 	states sync.Map // *nbio.Conn -> *connState
@@ -417,15 +424,24 @@ func (e *streamEnv) state(c *nbio.Conn) *connState {
 	if v, ok := e.states.Load(c); ok {
 		return v.(*connState)
 	}
-	v, _ := e.states.LoadOrStore(c, &connState{})
+	ns := &connState{}
+	v, loaded := e.states.LoadOrStore(c, ns)
+	if !loaded {
+		ns.hold.on = atomic.AddInt32(&e.nstate, 1)%2 == 0 // every other connection holds on to its callback data
+	}
 	return v.(*connState)
 }
 
-func (e *streamEnv) onData(c *nbio.Conn, data []byte) {
+func (e *streamEnv) onData(c *nbio.Conn, data []byte) { e.onDataP(c, nil, data) }
+
+func (e *streamEnv) onDataP(c *nbio.Conn, p *[]byte, data []byte) {
 	st := e.state(c)
 	if st.blocker != nil {
 		st.blocker()
 		return
+	}
+	if l := e.src.lenOf(p); len(data) > l {
+		e.src.problem("chunk-larger-than-buffer", fmt.Sprintf("the data callback was handed %d bytes in one call; the buffer the engine was given for the read has %d", len(data), l))
 	}
 	if atomic.AddInt32(&st.inCb, 1) > 1 {
 		atomic.AddInt32(&st.overlaps, 1)
@@ -435,6 +451,7 @@ func (e *streamEnv) onData(c *nbio.Conn, data []byte) {
 	st.ncb++
 	n := st.ncb
 	st.mu.Unlock()
+	st.hold.hold(e.src, "stream connection", data)
 	if k := atomic.LoadInt32(&st.echo); k > 0 {
 		cp := append([]byte(nil), data...)
 		for i := int32(0); i < k; i++ {
@@ -458,8 +475,12 @@ func (rt *realTier) runStream(c cell, r *rand.Rand, engineNo int, doIdle bool) {
 		rt.sockN++
 		addr = filepath.Join(rt.dir, fmt.Sprintf("s%d.sock", rt.sockN))
 	}
-	env := &streamEnv{openCh: make(chan struct{}, 64)}
-	g := nbio.NewEngine(c.config(network, addr))
+	src := newBufSource(c, r)
+	defer src.close()
+	lockPoller := r.Intn(4) == 0
+	env := &streamEnv{openCh: make(chan struct{}, 64), src: src}
+	g := nbio.NewEngine(c.config(network, addr, src, lockPoller))
+	src.hooks(g)
 	g.OnOpen(func(nc *nbio.Conn) {
 		env.state(nc)
 		env.mu.Lock()
@@ -474,9 +495,9 @@ func (rt *realTier) runStream(c cell, r *rand.Rand, engineNo int, doIdle bool) {
 		st.mu.Unlock()
 		atomic.StoreInt32(&st.closed, 1)
 	})
-	usePtr := r.Intn(2) == 0
+	usePtr := r.Intn(2) == 0 || src.needPtr()
 	if usePtr {
-		g.OnDataPtr(func(nc *nbio.Conn, p *[]byte) { env.onData(nc, *p) })
+		g.OnDataPtr(func(nc *nbio.Conn, p *[]byte) { env.onDataP(nc, p, *p) })
 	} else {
 		g.OnData(env.onData)
 	}
@@ -553,7 +574,7 @@ func (rt *realTier) runStream(c cell, r *rand.Rand, engineNo int, doIdle bool) {
 		exp[k] = streamBytes(p.ID, p.total)
 	}
 	replay := map[string]interface{}{"cell": c, "cell_name": c.Name(), "seed": rt.seed, "engine_no": engineNo,
-		"on_data_ptr": usePtr, "peers": plans, "rerun": fmt.Sprintf("readpath -seed %d -cell %s -gate 0", rt.seed, c.Name())}
+		"on_data_ptr": usePtr, "buffers": src.Kind, "lock_poller": lockPoller, "peers": plans, "rerun": fmt.Sprintf("readpath -seed %d -cell %s -gate 0", rt.seed, c.Name())}
 
 	// connections, one at a time, so that the order of OnOpen identifies them
 	var ext net.Listener
@@ -907,6 +928,13 @@ func (rt *realTier) runStream(c cell, r *rand.Rand, engineNo int, doIdle bool) {
 				c.Name(), p.ID, p.Role, p.End, len(exp[k]), len(got), ncb, closed, cerr, sendErr[k], what),
 			Replay: replay})
 	}
+	if srcFindings(rt, c, src, replay) {
+		bad = true
+	}
+	rep.Stat("R.buffers." + src.Kind)
+	if lockPoller {
+		rep.Stat("R.lock-poller")
+	}
 	key := c.Name()
 	nontrivial := false
 	for _, p := range plans {
@@ -1001,22 +1029,31 @@ type udpRec struct {
 	seq  int
 	data []byte
 	addr string
+	l    int // length of the buffer the datagram was read into
 }
 
 func (rt *realTier) runUDP(c cell, r *rand.Rand, engineNo int, doIdle bool) {
 	rep := rt.rep
-	g := nbio.NewEngine(c.config("udp", "127.0.0.1:0"))
+	src := newBufSource(c, r)
+	defer src.close()
+	lockPoller := r.Intn(4) == 0
+	g := nbio.NewEngine(c.config("udp", "127.0.0.1:0", src, lockPoller))
+	src.hooks(g)
+	var holders [16]holder
+	for i := range holders {
+		holders[i].on = i%2 == 1
+	}
 	var mu sync.Mutex
 	var recs []udpRec
 	var counts [16]int32
 	var inCb, overlaps int32
 	var opens, sessClosed int32
 	g.OnOpen(func(nc *nbio.Conn) { atomic.AddInt32(&opens, 1) })
-	onData := func(nc *nbio.Conn, data []byte) {
+	onData := func(nc *nbio.Conn, p *[]byte, data []byte) {
 		if atomic.AddInt32(&inCb, 1) > 1 {
 			atomic.AddInt32(&overlaps, 1)
 		}
-		rec := udpRec{conn: nc, id: -1, seq: -1, data: append([]byte(nil), data...)}
+		rec := udpRec{conn: nc, id: -1, seq: -1, data: append([]byte(nil), data...), l: src.lenOf(p)}
 		if ra := nc.RemoteAddr(); ra != nil {
 			rec.addr = ra.String()
 		}
@@ -1031,6 +1068,7 @@ func (rt *realTier) runUDP(c cell, r *rand.Rand, engineNo int, doIdle bool) {
 		n := len(recs)
 		mu.Unlock()
 		if rec.id >= 0 && rec.id < len(counts) {
+			holders[rec.id].hold(src, "udp listener", data)
 			atomic.AddInt32(&counts[rec.id], 1)
 		}
 		if n%17 == 0 {
@@ -1038,11 +1076,11 @@ func (rt *realTier) runUDP(c cell, r *rand.Rand, engineNo int, doIdle bool) {
 		}
 		atomic.AddInt32(&inCb, -1)
 	}
-	usePtr := r.Intn(2) == 0
+	usePtr := r.Intn(2) == 0 || src.needPtr()
 	if usePtr {
-		g.OnDataPtr(func(nc *nbio.Conn, p *[]byte) { onData(nc, *p) })
+		g.OnDataPtr(func(nc *nbio.Conn, p *[]byte) { onData(nc, p, *p) })
 	} else {
-		g.OnData(onData)
+		g.OnData(func(nc *nbio.Conn, data []byte) { onData(nc, nil, data) })
 	}
 	if err := g.Start(); err != nil {
 		rep.Stat("R.start-failed")
@@ -1068,6 +1106,11 @@ func (rt *realTier) runUDP(c cell, r *rand.Rand, engineNo int, doIdle bool) {
 		}
 	}()
 	size := func() int { return 3 + r.Intn(maxLen-2) }
+	// datagrams longer than the read buffer: the kernel cuts them to the buffer's length, and to nothing shorter
+	overLong := 0
+	if c.effRBS() <= 700 {
+		overLong = 2 * c.effRBS()
+	}
 	for k := range plans {
 		p := &remotePlan{ID: k + 1}
 		nb := 1 + r.Intn(3)
@@ -1081,6 +1124,9 @@ func (rt *realTier) runUDP(c cell, r *rand.Rand, engineNo int, doIdle bool) {
 					sz = append(sz, 3+r.Intn(a-2), a)
 				case 1:
 					sz = append(sz, maxLen)
+					if overLong > 0 && r.Intn(2) == 0 {
+						sz = append(sz, maxLen+1+r.Intn(overLong-maxLen))
+					}
 				case 2:
 					sz = append(sz, 3)
 				default:
@@ -1103,7 +1149,7 @@ func (rt *realTier) runUDP(c cell, r *rand.Rand, engineNo int, doIdle bool) {
 		socks[k] = s
 	}
 	replay := map[string]interface{}{"cell": c, "cell_name": c.Name(), "seed": rt.seed, "engine_no": engineNo,
-		"on_data_ptr": usePtr, "remotes": plans, "rerun": fmt.Sprintf("readpath -seed %d -cell %s -gate 0", rt.seed, c.Name())}
+		"on_data_ptr": usePtr, "buffers": src.Kind, "lock_poller": lockPoller, "remotes": plans, "rerun": fmt.Sprintf("readpath -seed %d -cell %s -gate 0", rt.seed, c.Name())}
 
 	var wg sync.WaitGroup
 	sent := make([]int32, nr)
@@ -1195,15 +1241,22 @@ func (rt *realTier) runUDP(c cell, r *rand.Rand, engineNo int, doIdle bool) {
 			continue
 		}
 		full := dgram(rec.id, rec.seq, want)
+		if want > rec.l && len(rec.data) <= rec.l {
+			// longer than the buffer it was read into: the kernel delivers the first len(buffer) bytes
+			want = rec.l
+			full = full[:want]
+		}
 		switch {
 		case bytes.Equal(full, rec.data):
+		case len(rec.data) > rec.l:
+			src.problem("chunk-larger-than-buffer", fmt.Sprintf("remote %d datagram %d: %d bytes sent, %d handed to the data callback, but the buffer the engine was given for the read has %d", rec.id, rec.seq, want, len(rec.data), rec.l))
 		case len(rec.data) < want && bytes.Equal(full[:len(rec.data)], rec.data):
 			if trunc == "" {
 				prev := -1
 				if rec.seq > 0 {
 					prev = sizeOf(p, rec.seq-1)
 				}
-				trunc = fmt.Sprintf("remote %d datagram %d: %d bytes sent, %d delivered (read buffer %d; previous datagram of this remote had %d bytes)", rec.id, rec.seq, want, len(rec.data), c.effRBS(), prev)
+				trunc = fmt.Sprintf("remote %d datagram %d: %d bytes sent, %d delivered (read buffer %d; previous datagram of this remote had %d bytes)", rec.id, rec.seq, want, len(rec.data), rec.l, prev)
 			}
 		default:
 			if corrupt == "" {
@@ -1273,6 +1326,10 @@ func (rt *realTier) runUDP(c cell, r *rand.Rand, engineNo int, doIdle bool) {
 	if missing > 0 && order == "" {
 		add("stall-"+c.Class(), fmt.Sprintf("%d datagrams were sent but not delivered within 3 s (first: %s); the delivered ones are in order: the rest sits unread in the socket", missing, first))
 	}
+	if srcFindings(rt, c, src, replay) {
+		bad = true
+	}
+	rep.Stat("R.buffers." + src.Kind)
 	key := c.Name()
 	for _, p := range plans {
 		key += fmt.Sprint(p.Bursts)
@@ -1293,3 +1350,14 @@ func (rt *realTier) runUDP(c cell, r *rand.Rand, engineNo int, doIdle bool) {
 	}
 }
 
+
+// srcFindings reports what the buffer oracles of exec.go saw in this cell
+func srcFindings(rt *realTier, c cell, src *bufSource, replay map[string]interface{}) bool {
+	src.mu.Lock()
+	defer src.mu.Unlock()
+	for sig, what := range src.problems {
+		rt.add(hx.Finding{Kind: "oracle", Property: "C02", Signature: sig,
+			What: fmt.Sprintf("cell %s (buffers: %s, configured length %d): %s", c.Name(), src.Kind, src.n, what), Replay: replay})
+	}
+	return len(src.problems) > 0
+}
